@@ -435,3 +435,64 @@ func fuzzSeedsHSMS() [][]byte {
 	out = append(out, []byte{0, 0, 0, 10, 0xFF, 0xFF, 0, 0, 0, 5, 0, 0, 0, 1})
 	return out
 }
+
+// c03Large: well-formed messages longer than one maximal item (a list's length field counts children, so its
+// encoding may exceed 16,777,215 bytes), and the same with one byte missing / appended.
+type c03Large struct {
+	Kind     string `json:"kind"`
+	N        int    `json:"n"`        // elements per child item
+	Children int    `json:"children"` // number of equal child items in the list
+	Fault    int    `json:"fault"`    // 0 none, 1 last byte missing (outer length patched), 2 one byte appended (outer length patched)
+}
+
+func init() { registerReplay("c03large", checkC03Large) }
+
+func checkC03Large(c c03Large) (ci caseInfo, err error) {
+	child := &model.Node{Kind: c.Kind, Bulk: &model.Bulk{N: c.N, Seed: uint64(c.N)}}
+	root := &model.Node{Kind: model.L}
+	for i := 0; i < c.Children; i++ {
+		root.Children = append(root.Children, model.Child{Node: child})
+	}
+	in, _, eerr := model.RefEncodeMsg(&model.Msg{Session: 3, Stream: 5, Function: 7, Wait: true, System: [4]byte{9, 8, 7, 6}, Item: root}, nil)
+	if eerr != nil {
+		return ci, fmt.Errorf("harness: %v", eerr)
+	}
+	switch c.Fault {
+	case 1:
+		in = patchLen(in[:len(in)-1])
+	case 2:
+		in = patchLen(append(in, 0x00))
+	}
+	ci.Nontrivial = true
+	ci.Key = fmt.Sprintf("large/%s/%d/%d/%d", c.Kind, c.N, c.Children, c.Fault)
+	ci.label("large:%d-MiB", len(in)>>20)
+	exact := append([]byte(nil), in...)
+	msg, ok := hsms.Parse(exact)
+	if c.Fault != 0 {
+		if ok {
+			return ci, fmt.Errorf("%d-byte message around <L[%d] <%s[%d]>...> with fault %d is accepted", len(in), c.Children, c.Kind, c.N, c.Fault)
+		}
+		return ci, nil
+	}
+	if !ok {
+		return ci, fmt.Errorf("well-formed %d-byte message around <L[%d] <%s[%d]>...> is rejected", len(in), c.Children, c.Kind, c.N)
+	}
+	if out := msg.ToBytes(); !bytes.Equal(out, in) {
+		return ci, fmt.Errorf("%d-byte message around <L[%d] <%s[%d]>...>: re-encoding differs: %s", len(in), c.Children, c.Kind, c.N, firstDiff(out, in))
+	}
+	return ci, nil
+}
+
+func TestC03Large(t *testing.T) {
+	shard, nshards := shardInfo()
+	cases := []c03Large{{model.A, 8500000, 2, 0}, {model.B, 6000000, 3, 0}, {model.U4, 2100000, 2, 0}, {model.A, 8388608, 2, 0}, {model.A, 8500000, 2, 1}, {model.B, 6000000, 3, 2},
+		{model.A, 16777215, 1, 0}, {model.F8, 2097151, 1, 0}}
+	if isThorough() {
+		cases = append(cases, c03Large{model.A, 16777215, 2, 0}, c03Large{model.I8, 2097151, 3, 0}, c03Large{model.A, 16777215, 2, 1})
+	}
+	for i, c := range cases {
+		if i%nshards == shard {
+			runCase[c03Large](t, "C03", "c03large", checkC03Large, c)
+		}
+	}
+}
